@@ -105,4 +105,17 @@ Definition judge (op : bytes) (args : list val) (out : val) : verdict :=
     | [VInt kind; v; VStr f] => if utf8_ok f then judge_fmt true kind v f out else JSkip
     | _ => JSkip
     end
+  (* the deprecated free functions format / format_item: the same documented text (a value the harness
+     cannot hand over - wall clock outside the date range - is BADARGS and outside the domain) *)
+  else if op_is op "sf.dfmt" || op_is op "sf.dfmti" then
+    match args with
+    | [VInt kind; v; VStr f] =>
+        if utf8_ok f then
+          match out with
+          | VErr e => if bytes_eqb e B"BADARGS" then JSkip else judge_fmt false kind v f out
+          | _ => judge_fmt false kind v f out
+          end
+        else JSkip
+    | _ => JSkip
+    end
   else JSkip.
